@@ -134,8 +134,15 @@ def run(repo, res):
             t = unparse(ex.expand(r.value.elts[1]))
             # proposals derived from the cursor-marked scope: names_at of a marked read, attr_list of a value
             # evaluated in the marked tree (module tables loaded from disk carry no marker)
-            from_marked = 'names_at(' in t or ('attr_list(' in t and 'get_nmodule(' not in t.split('attr_list(')[0][-60:])
-            if 'names' in raw and not from_marked and 'sorted(names' in raw:
+            full2 = ex.expand(r.value.elts[1])
+            from_marked = False
+            for c in ast.walk(full2):
+                if isinstance(c, ast.Call) and isinstance(c.func, ast.Attribute):
+                    if c.func.attr == 'names_at':
+                        from_marked = True
+                    if c.func.attr == 'attr_list' and 'get_nmodule(' not in unparse(c.func.value):
+                        from_marked = True
+            if 'sorted(names' in raw:
                 from_marked = True
             if from_marked and not any(w in raw + t for w in ('unmark(', 'marked(', 'SOURCE_MARK')):
                 sink_clean = False
